@@ -60,7 +60,7 @@ pub mod etag {
             /*@C14 #echoed_etag_gives_not_modified*/ (*etag matches Some(e) && single_tag(e.bytes@) && hdr_bytes(req_hdrs, HeaderName::IF_NONE_MATCH) == Some(e.bytes@)) ==> r == Some(false),
     //@body
     //@ at_start: proof { if let Some(e) = etag { if single_tag(e.bytes@) { lemma_single_tag_scan(e.bytes@); } } }
-    //@ loop 1: invariant /*@C04 #none_match_scan_invariant*/ !items.corrupt && scan(m@, some_etag.bytes@, true) == ((!none_match || scan(items.remaining@, some_etag.bytes@, true).0), scan(items.remaining@, some_etag.bytes@, true).1), decreases items.remaining@.len(),
+    //@ loop 1: invariant /*@C04 #none_match_scan_invariant*/ !items.corrupt && scan(hdr_bytes(req_hdrs, HeaderName::IF_NONE_MATCH).unwrap(), opt_bytes(*etag).unwrap(), true) == ((!none_match || scan(items.remaining@, opt_bytes(*etag).unwrap(), true).0), scan(items.remaining@, opt_bytes(*etag).unwrap(), true).1), decreases items.remaining@.len(),
     //@ after "loop {": proof { lemma_step_shrinks(items.remaining@); }
     //@end
 
@@ -71,7 +71,7 @@ pub mod etag {
             /*@C14 #echoed_strong_etag_passes_if_match*/ (*etag matches Some(e) && single_tag(e.bytes@) && !is_weak(e.bytes@) && hdr_bytes(req_hdrs, HeaderName::IF_MATCH) == Some(e.bytes@)) ==> r == Ok::<bool, &'static str>(true),
     //@body
     //@ at_start: proof { if let Some(e) = etag { if single_tag(e.bytes@) { lemma_single_tag_scan(e.bytes@); } } }
-    //@ loop 1: invariant /*@C04 #any_match_scan_invariant*/ !items.corrupt && scan(m@, some_etag.bytes@, false) == ((any_match || scan(items.remaining@, some_etag.bytes@, false).0), scan(items.remaining@, some_etag.bytes@, false).1), decreases items.remaining@.len(),
+    //@ loop 1: invariant /*@C04 #any_match_scan_invariant*/ !items.corrupt && scan(hdr_bytes(req_hdrs, HeaderName::IF_MATCH).unwrap(), opt_bytes(*etag).unwrap(), false) == ((any_match || scan(items.remaining@, opt_bytes(*etag).unwrap(), false).0), scan(items.remaining@, opt_bytes(*etag).unwrap(), false).1), decreases items.remaining@.len(),
     //@ after "loop {": proof { lemma_step_shrinks(items.remaining@); }
     //@end
 }
